@@ -334,11 +334,13 @@ def run(tier, rep):
         rep.merge_worker(res)
     from .. import realbpf
     if not realbpf.build():
-        kres = sandbox.run("vf.props.kernelsec", "c07_worker", {"tier": tier, "rounds": 4 if tier == "quick" else 40}, timeout=900 if tier == "quick" else 5400, pidns=False)
-        if kres.get("skip_reason"):
-            rep.coverage["kernel_section_skip_reason"] = kres["skip_reason"][:300]
-            kres.pop("inconclusive", None)
-        rep.merge_worker(kres)
+        for delays in (False, True):
+            kres = sandbox.run("vf.props.kernelsec", "c07_worker", {"tier": tier, "rounds": 4 if tier == "quick" else 40, "delays": delays, "immediate_reuses": 60 if tier == "quick" else 600},
+                               timeout=900 if tier == "quick" else 5400, pidns=False)
+            if kres.get("skip_reason"):
+                rep.coverage["kernel_section_skip_reason"] = kres["skip_reason"][:300]
+                kres.pop("inconclusive", None)
+            rep.merge_worker(kres)
     rep.assumptions += ["hook H1 stands in for the kernel audit map; lookup and remove are separate traced operations"]
     # which record a source port carries is decided in the eBPF program (audit_map keyed by source port): a slice of the C06 engine (ASan model,
     # worlds with source-port reuse over unconsumed records) judges that a reused port carries the record of the NEW connection
